@@ -409,8 +409,10 @@ class TrajectoryCalc:
                                         "data_filter": data_filter, "wind_sock": wind_sock})
         # keep going while a requested record distance within the range is still owed: with a tail wind the ground
         # advance of one step exceeds min_step and the loop bound alone can jump past the last record distance
+        # (record distances are accumulated by addition: the one at the range itself may exceed it by rounding)
+        owed_up_to = maximum_range * (1 + 1e-9)
         while (range_vector.x <= maximum_range + min_step
-               or (filter_flags and record_step > 0 and data_filter.next_record_distance <= maximum_range)):
+               or (filter_flags and record_step > 0 and data_filter.next_record_distance <= owed_up_to)):
             it += 1
             data_filter.clear_current_flag()
             if _verif_sink is not None:
